@@ -22,7 +22,7 @@ ASSUMPTIONS = ["tier-B classification of garbage lines uses the repo's own decod
 REQUIRED_PROBES = ["rejected_lines", "ota_malformed_requests", "reply_held", "wakeups"]
 
 WEIGHTS = {"invalid_frame": 8, "garbage": 9, "stream_bad": 5, "stream_cfg": 3, "stream_blk": 3, "ctl_fw": 4,
-           "heartbeat": 7, "presleep": 7, "ctl_set": 8, "present_child": 12, "req": 9}
+           "heartbeat": 7, "presleep": 7, "idreq": 6, "ctl_set": 8, "present_child": 12, "req": 9}
 FLAVOURS = ["serial", "tcp", "aserial", "atcp", "mqtt", "amqtt"]
 
 
@@ -40,6 +40,16 @@ def gen(rng, tier, index):
             cfg["pub_raise"] = sorted(rng.sample(range(30), 4))
     n_ops = rng.randint(10, 60 if tier == "thorough" else 40)
     ops = netgen.make_ops(rng, cfg["version"], n_ops, WEIGHTS, probes_after_hostile=True, hostile_values=True, scenario=0.2)
+    if rng.random() < 0.12:
+        # histories in which the id space is exhausted early
+        ops.insert(rng.randrange(0, 3), ["line", f"{rng.choice([254, 254, 255])};255;0;0;17;2.0"])
+        for _ in range(rng.randint(2, 4)):
+            ops.insert(rng.randrange(3, len(ops)), ["line", "255;255;3;0;3;"])
+    if cfg["flavour"] in ("serial", "tcp") and rng.random() < 0.2:
+        # controller calls from a second thread racing with the pump (pre-emptive schedule)
+        cfg["sched"] = {"policy": "rw", "seed": rng.getrandbits(32), "p": rng.choice([0.02, 0.08, 0.2])}
+        cfg["max_steps"] = 1_500_000
+        ops = netgen.add_races(rng, cfg["version"], ops, rng.choice(["set", "fw"]) if cfg["version"] in ("2.0", "2.1", "2.2") else "fw")
     return {"cfg": cfg, "ops": ops}
 
 
